@@ -28,7 +28,7 @@ Section Shape.
     length (credential_response_serialize CS resp) = credential_response_len CS.
   Proof.
     intros H Hb Hss Hfile.
-    pose proof (server_login_start_layout CS _ _ _ _ _ _ _ _ _ _ _ _ H) as (fmk & eseed & _ & _ & Lmn & _ & Lsn & (esk & Hesk & Hepk)).
+    pose proof (server_login_start_layout CS _ _ _ _ _ _ _ _ _ _ _ _ H) as (fmk & eseed & _ & _ & Lmn & Leseed & Lsn & (esk & Hesk & Hepk)).
     unfold server_login_start in H.
     apply bind_Ok in H as ([rec t0] & Hrec & H).
     cbn [private_key_ops s_pub bind] in H.
@@ -61,7 +61,7 @@ Section Shape.
     apply bind_Ok in Hke2 as (pre & _ & Hke2). apply bind_Ok in Hke2 as (dh2 & _ & Hke2).
     apply bind_Ok in Hke2 as ([[[sk km2] km3] hs] & _ & Hke2). injection Hke2 as <- <- <- <-.
     cbn [k2_nonce k2_server_e_pk k2_mac] in *.
-    pose proof (g_pub_valid CS GL _ (g_derive_valid CS GL _ _ _ _ Hesk)) as [_ Lepk]. rewrite <- Hepk in Lepk.
+    pose proof (g_pub_valid CS GL _ (g_derive_valid CS GL _ _ _ _ Leseed Hesk)) as [_ Lepk]. rewrite <- Hepk in Lepk.
     unfold credential_response_serialize, credential_response_len, ke2_message_serialize, ke2_message_len.
     cbn [cr_eval cr_masking_nonce cr_masked cr_ke2 k2_nonce k2_server_e_pk k2_mac].
     rewrite !app_length, Lm, Lev, Lmn, Lsn, Lepk, (hmac_len _ HL). lia.
